@@ -201,3 +201,21 @@ Definition C07_seamless_target_full : Prop :=
                (snd res = JNil ->
                   (exists D1 D2, from_num start merged = D1 ++ D2 /\ rev (cs_stack c') = D1) \/
                   from_num start (rev (cs_stack c')) = from_num start canon).
+
+(* cursor_lib_on cannot simply be dropped from C07_seamless_target_full: a (malformed) target cursor whose LIB reference names
+   a block of the hub's chain under a WRONG NUMBER - here {New, block 14, LIB (id 12, number 14)} - meets every other
+   hypothesis, and when the hub stores the cursor block off its chain blocksFromCursor serves "from the cursor LIB number
+   on": delivered are ... New 14, Undo 14, New 115 (parent 114 never delivered).  Cursors minted by a stream carry the LIB's
+   own number; this is a statement about the model only (the harness cannot craft such a cursor). *)
+Definition C07_target_cursor_lib_needed : Prop :=
+  exists (U : list block) (c : jcfg) (w : world) (ps : list (N * N)) (merged_end : N) (canon forked : list block)
+         (cu : cursor) (B : block),
+    let merged := filter (fun b => bnum b <? merged_end) canon in
+    wf_b U = true /\ lib_ok_b LNone U = true /\ hub_of_universe U c w /\
+    chain_ok canon /\ incl canon U /\ eventual_tip c w canon /\
+    j_mode c = 2 /\ j_cursor c = Some cu /\ j_filter c = 0 /\ j_stop c = 0 /\ 0 < j_bundle c /\
+    Forall (fun b => bnum b < file_bound) merged /\
+    In B canon /\ bref B = cu_blk cu /\
+    (exists Lb, In Lb canon /\ bid Lb = ri (cu_lib cu) /\ bnum Lb <= bnum B) /\
+    (exists b, In b canon /\ bnum b = run_start c w) /\
+    cons_fold_aside cons0 (map as_new (fst (stream_run c w ps merged_end merged forked))) = None.
